@@ -4,12 +4,13 @@ import MesonModel.Ninja.Emit
 /-
 driver commands of area `ninja`
 
-  parse <text>                         -> OK|R:<rules>|D:<defaults>|E:<edge>|E:<edge>…   (canonical dump, edges in file order)
-                                          edge = rule;outs;implOuts;ins;implIns;orderIns;vals;k=v&k=v
+  parse <text>                         -> OK|R:<rules>|D:<defaults>|L:<pools>|E:<edge>|E:<edge>…   (canonical dump, file order)
+                                          edge = rule;outs;implOuts;ins;implIns;orderIns;vals;k=v&k=v;effective-pool
                                           ERR:Parse:<kind>:<chars-left> / ERR:Load:<kind>:<arg>
   leaves <text>                        -> OK|<inputs that no statement produces>  (what the caller must stat)
   check <text>|<fs>|<reqs>             -> verdict of the verified checker on the manifest text
-  checkg <rules>|<edges>|<fs>|<reqs>   -> the same on a graph given directly; edges `rule;outs;ins;vals` joined by `/`
+  checkg <rules>|<edges>|<fs>|<reqs>[|<pools>|<defaults>]
+                                       -> the same on a graph given directly; edges `rule;outs;ins;vals[;pool]` joined by `/`
   canon <path>                         -> canonicalised path
   quote <name>                         -> ninja_quote(name, is_build_line=True) of the emission model
   readpath <text>                      -> OK|<first path as read by the lexer>|<rest>
@@ -24,7 +25,7 @@ def encL (l : List Str) : String := encodeStrList l
 
 def dumpEdge (b : BuildStmt) : String :=
   ";".intercalate [encodeStr b.rule, encL b.outs, encL b.implOuts, encL b.ins, encL b.implIns, encL b.orderIns,
-    encL b.vals, "&".intercalate (b.binds.map (fun kv => encodeStr kv.1 ++ "=" ++ encodeStr kv.2))]
+    encL b.vals, "&".intercalate (b.binds.map (fun kv => encodeStr kv.1 ++ "=" ++ encodeStr kv.2)), encodeStr b.pool]
 
 def loadText (t : Str) : Except String Manifest :=
   match parse t with
@@ -47,7 +48,9 @@ def verdict (g : Graph String) (fs : List String) (reqs : List (String × String
   let r3 := acyclicB es
   let r4 := closedB fs es
   let r5 := reqsOk es reqs
-  let wf := r1 && r2 && r3 && r4 && r5   -- = wellFormed g fs reqs (by definition)
+  let r6 := poolsB g
+  let r7 := defaultsB g
+  let wf := r1 && r2 && r3 && r4 && r5 && r6 && r7   -- = wellFormed g fs reqs (by definition)
   let dup := if r2 then "" else match firstDup (allOuts es) with | some d => encodeStr d.toList | none => ""
   let missing := if r4 then [] else (missingInputs fs es).eraseDups
   let unreached := if r5 then [] else
@@ -56,12 +59,13 @@ def verdict (g : Graph String) (fs : List String) (reqs : List (String × String
   let badrules := (es.filter (fun e => !ruleOk g.rules e)).map (·.rule) |>.eraseDups
   s!"OK|wf={boolStr wf}|rules={boolStr r1}|unique={boolStr r2}|acyclic={boolStr r3}|closed={boolStr r4}|reach={boolStr r5}" ++
   s!"|dup={dup}|missing={encS missing}|unreached={encS unreached}|stuck={stuck}|badrules={encL badrules}" ++
-  s!"|edges={es.length}"
+  s!"|edges={es.length}|pools={boolStr r6}|defaults={boolStr r7}"
 
 def strs (f : String) : List String := (decodeStrList f).map String.ofList
 
 def decodeEdge (s : String) : Edge String :=
   match s.splitOn ";" with
+  | [r, o, i, v, p] => { rule := decodeStr r, outs := strs o, ins := strs i, vals := strs v, pool := decodeStr p }
   | [r, o, i, v] => { rule := decodeStr r, outs := strs o, ins := strs i, vals := strs v }
   | [r, o, i] => { rule := decodeStr r, outs := strs o, ins := strs i }
   | _ => { rule := [], outs := [], ins := [] }
@@ -103,7 +107,7 @@ def handle (cmd : String) (fs : List String) : String :=
     match loadText (decodeStr t) with
     | .error e => e
     | .ok m =>
-      "|".intercalate (["OK", "R:" ++ encL (m.rules.map (·.1)), "D:" ++ encL m.defaults] ++
+      "|".intercalate (["OK", "R:" ++ encL (m.rules.map (·.1)), "D:" ++ encL m.defaults, "L:" ++ encL (m.pools.map (·.1))] ++
         m.builds.map (fun b => "E:" ++ dumpEdge b))
   | "leaves", [t] =>
     match loadText (decodeStr t) with
@@ -119,6 +123,10 @@ def handle (cmd : String) (fs : List String) : String :=
   | "checkg", [rules, edges, f, r] =>
     let es := if edges.trimAscii.isEmpty then [] else (edges.splitOn "/").map decodeEdge
     verdict { rules := decodeStrList rules, edges := es } (strs f) (pairs (strs r))
+  | "checkg", [rules, edges, f, r, pools, dflt] =>
+    let es := if edges.trimAscii.isEmpty then [] else (edges.splitOn "/").map decodeEdge
+    verdict { rules := decodeStrList rules, edges := es, pools := decodeStrList pools, defaults := strs dflt }
+      (strs f) (pairs (strs r))
   | "canon", [p] => encodeStr (canonPath (decodeStr p))
   | "quote", [p] =>
     match Emit.ninjaQuoteBuild (decodeStr p) with
